@@ -160,7 +160,7 @@ def Routable (V : String → Bool) (roots : List Node) (req : Req) (f : Facts) :
 /-! ## which requests the text determines
 
 The property itself leaves two combinations open (`headerContradictsVerb`,
-`otherVerbWithHeaderOnSimple`). Six further request shapes are not determined by its text; they are
+`otherVerbWithHeaderOnSimple`). Seven further request shapes are not determined by its text; they are
 named here one by one rather than guessed. `decide` returns *something* on all of them, but the
 theorems only claim agreement on `specified` requests. -/
 
@@ -204,9 +204,15 @@ def emptyReservedValue (req : Req) : Bool :=
 def duplicateReserved (req : Req) : Bool :=
   ["q", "ids", "action"].any fun name => (req.query.filter (fun kv => kv.1 == name)).length > 1
 
+/-- (shape 7) a malformed path segment in a path that names no registered resource: a bad request
+(400) or an unknown resource (404)? The text gives no order between the two. -/
+def malformedAndUnknown (V : String → Bool) (roots : List Node) (req : Req) : Bool :=
+  (locate roots req.path).isNone && !req.path.all V
+
 /-- the request is one whose outcome the property text determines -/
-def specified (roots : List Node) (req : Req) : Bool :=
+def specified (V : String → Bool) (roots : List Node) (req : Req) : Bool :=
   !unknownHeaderValue req && !emptySegment req && !emptyReservedValue req && !duplicateReserved req &&
+  !malformedAndUnknown V roots req &&
   match locate roots req.path with
   | none => true
   | some t => !headerContradictsVerb t req && !otherVerbWithHeaderOnSimple t req && !keyAndIds t req && !qAndIds t req
